@@ -46,7 +46,7 @@ def gen_ring(rng, n):
 
 
 def common_params(rng, strat, ind):
-    individuals = rng.choice([4, 4, 5, 6, 8, 12, 20, 33])
+    individuals = rng.choice([4, 4, 5, 6, 8, 12, 20, 33, 60])
     # std / DE recombination reads parent[1]: tournament_size = 1 is only exercised by the
     # selection-only component cases and by corpus/C06/tournament1.cases (known finding)
     tour = rng.choice([2, 2, 3, 4, individuals, min(individuals, 7)])
@@ -268,14 +268,14 @@ def run(chk, replay=None):
                 if fn.endswith(".cases"):
                     cases += [l.strip() for l in open(os.path.join(cdir, fn)) if l.strip() and not l.startswith("#")]
         thorough = chk.tier == "thorough"
-        cases += gen_ops(rng, 30 if not thorough else 200)
-        cases += gen_ring(rng, 6 if not thorough else 40)
-        cases += gen_tune(rng, 250 if not thorough else 3000)
-        cases += gen_comp(rng, 48 if not thorough else 400, 60 if not thorough else 150)
-        cases += gen_runs(rng, 42 if not thorough else 420, thorough)
+        cases += gen_ops(rng, 150 if not thorough else 1500)
+        cases += gen_ring(rng, 20 if not thorough else 200)
+        cases += gen_tune(rng, 1500 if not thorough else 20000)
+        cases += gen_comp(rng, 300 if not thorough else 3000, 100 if not thorough else 200)
+        cases += gen_runs(rng, 420 if not thorough else 4200, thorough)
 
     # ---- harness (sharded) + driver ----------------------------------------
-    nshard = 1 if len(cases) < 8 else (6 if chk.tier == "quick" else 8)
+    nshard = 1 if len(cases) < 8 else 6
     shards = [[] for _ in range(nshard)]
     index = [[] for _ in range(nshard)]
     # interleave so that every shard gets a similar mix
@@ -306,7 +306,7 @@ def run(chk, replay=None):
         if ans is not None and len(ans) != len(obs):
             broken.append(f"driver answered {len(ans)} lines for {len(obs)} requests (shard {k})")
             ans = None
-        seen_case = set()
+        seen_case, bad_case = set(), set()
         for j, (ci, oracle, expected, req) in enumerate(obs):
             case = shards[k][ci]
             kind = case.split()[0]
@@ -331,6 +331,9 @@ def run(chk, replay=None):
             if rk == "tune":
                 chk.count("tune:valid_after=" + expected.split()[-1])
             if oracle != "ok":
+                chk.count("oracle:" + oracle[4:])
+            if oracle != "ok" and ci not in bad_case:
+                bad_case.add(ci)            # the first failing observation of a case is the replay
                 if rk == "tune" and oracle == "bad:tuned-environment-not-valid":
                     tags = tune_tags(case, expected)
                 else:
@@ -338,7 +341,6 @@ def run(chk, replay=None):
                 chk.violation(f"{oracle[4:]}: observation #{j} of case `{case}`: {req[:400]}",
                               {"case": case, "observation": j, "request": req[:2000], "oracle": oracle,
                                "tags": tags}, tags=tags)
-                chk.count("oracle:" + oracle[4:])
             if ans is not None and req != "noop":
                 a = ans[j]
                 want = "ok" if expected == "-" else expected
@@ -362,8 +364,12 @@ def run(chk, replay=None):
     elif broken:
         chk.notes += broken[:10]
 
+    nrun = chk.cov["input_distribution"].get("case:run", 0) - chk.cov["input_distribution"].get("crash", 0)
     return chk.finish(
         level="proof",
+        extra={"traces_validated_against_impl": max(nrun, 0),
+               "transitions": chk.cov["input_distribution"].get("obs:step", 0)
+               + chk.cov["input_distribution"].get("obs:state", 0)},
         checker_cmd="lake build Vita.C06.Props c06_driver && lake env lean <#print axioms for every theorem>",
         rule="observations of real executions (book-keeping op, ring draw, selection, replacement step, "
              "generation boundary, tune_parameters call); distinct = distinct (case kind, observation) "
